@@ -10,7 +10,8 @@ for p in sorted(glob.glob(os.path.join(ROOT, "benign", "*", "meta.json"))):
     m = json.load(open(p)); name = p.split("/")[-2]
     ch = m.get("checks", {})
     if not m.get("applies_and_suite_passes"):
-        rows.append(f"| {name} | {KIND.get(m.get('kind'), m.get('kind'))} | {re.sub(chr(10), ' ', m.get('summary') or '')[:160]} | – | does not apply to the current tree (overlaps repair F15) |")
+        summ = re.sub(r"\s+", " ", m.get("summary") or "")[:160]
+        rows.append(f"| {name} | {KIND.get(m.get('kind'), m.get('kind'))} | {summ} | – | does not apply to the current tree (overlaps repair F15) |")
         continue
     sil = [k for k, v in sorted(ch.items()) if v["verdict"] == "silent"]
     al = [f"{k} ({v['verdict']})" for k, v in sorted(ch.items()) if v["verdict"] != "silent"]
@@ -20,7 +21,8 @@ for p in sorted(glob.glob(os.path.join(ROOT, "benign", "*", "meta.json"))):
         fa = [k for k, v in sorted(first[name].get("checks", {}).items()) if v["verdict"] != "silent"]
         if fa:
             note = " — first pass: " + ", ".join(fa) + " alarmed (no failing input); fixed, see below"
-    rows.append(f"| {name} | {KIND.get(m.get('kind'), m.get('kind'))} | {re.sub(r'\\s+', ' ', m.get('summary') or '')[:160]} | {', '.join(sil) or '–'} | {', '.join(al) or 'none'}{note} |")
+    summ = re.sub(r"\s+", " ", m.get("summary") or "")[:160]
+    rows.append(f"| {name} | {KIND.get(m.get('kind'), m.get('kind'))} | {summ} | {', '.join(sil) or '–'} | {', '.join(al) or 'none'}{note} |")
 text = f"""| change | kind | what (agent's summary) | checks that stayed silent | alarms |
 |---|---|---|---|---|
 """ + "\n".join(rows) + f"\n\nTotals on the current checks: {nsil} check runs silent, {nal} alarms.\n"
